@@ -172,29 +172,24 @@ class QintImp(int, Qtype):
         (x << 3) + (x << 1) # Here 10*x is computed as x*2^3 + x*2
         """
 
-        # Multiply t_num by the nearest n | 2**n < t_const
-        n = 1
-        while 2**n <= const:
-            n += 1
-        if 2**n > const:
-            n -= 1
-
+        # Shift-and-add over the set bits of the constant; every partial product is brought to
+        # the width of the result type, so that no carry is lost
         result_ttype = cast(TType, result_type)
+        res = None
 
-        t_num_r = result_type.shift_left((result_ttype, t_num[1]), n)
+        for i in range(const.bit_length()):
+            if (const >> i) & 1 == 0:
+                continue
 
-        # Shift t_const by t_const - 2**n
-        r = const - 2**n
-        if r > 0:
-            # Add the shift result to t_num
-            res = result_type.add(
-                (result_ttype, t_num_r[1]),
-                result_type.shift_left((result_ttype, t_num[1]), int(r / 2)),
+            term = result_type.fill(
+                result_type.shift_left((result_ttype, t_num[1]), i)
             )
-        else:
-            res = (result_ttype, t_num_r[1])
+            res = term if res is None else result_type.add(res, term)
 
-        return res
+        if res is None:  # const == 0
+            res = result_type.const(0)
+
+        return (result_ttype, res[1])
 
     @classmethod
     def mul(cls, tleft_: TExp, tright_: TExp) -> TExp:  # noqa: C901
